@@ -248,7 +248,7 @@ def spec_strategy(draw, n, max_len=6):
         leave.append(d)
     return {"agents": agents, "obs": draw(st.sampled_from(pz.KINDS)), "dt": draw(st.integers(0, 5)),
             "act": draw(st.sampled_from(pz.ACTS)), "lens": lens, "end": ends, "leave": leave,
-            "info": draw(st.integers(0, 2)),
+            "info": draw(st.integers(0, 2)), "layout": draw(st.sampled_from([0, 0, 1])),
             "sleep_us": [draw(st.lists(st.sampled_from([0, 0, 200, 1000, 3000]), min_size=1, max_size=4)) for _ in range(n)]}
 
 
